@@ -156,6 +156,11 @@ def worker(args):
         if args.get("brackets") and rng.random() < 0.15:
             names = ["a", "a[b]", "[ab]", "b", "ab"]
             rec.count("bracket_universes")
+        if names is None and rng.random() < 0.3 and model.alias:
+            # entities NAMED like alias members / aliases at open levels ('ma', 'mb'): a concrete Sid ending in the alias still expands
+            a = rng.choice(sorted(model.alias))
+            names = sorted(set(model.alias[a][:2]) | {"b", "ab"})
+            rec.count("alias_member_name_universes")
         ents = universe.gen_universe(rng, model, vocab, n_leaves=rng.choice([12, 30, 60]), names=names)
         full = universe.with_ancestors(ents)
         state["uid"] = "%s-%d" % (args.get("seed"), u)
